@@ -131,6 +131,8 @@ def rand_attrs(r, i, numeric_bias):
             vals = r.sample(pool, r.randrange(1, 4))
         else:
             vals = r.sample(WORDVALS, r.randrange(1, 3))
+        if k != "ID" and r.random() < 0.15:
+            vals = vals + [vals[0]]                      # a value listed twice (Note=zeta,alpha,zeta)
         parts.append("%s=%s" % (k, ",".join(vals)))
     return ";".join(parts)
 
@@ -138,9 +140,14 @@ def rand_attrs(r, i, numeric_bias):
 def rand_items(r, n, npos=12, none_coords=False):
     items = []
     seqid = "c1"
+    prev_attrs = None
     for i in range(n):
         if r.random() < 0.15:
             seqid = r.choice(["c1", "c2", "c3"])
+        # now and then a feature carries exactly the attribute column of its predecessor (ID-less exons of one transcript):
+        # the gap between them still gets the sorted, duplicate-free union
+        attrs_text = prev_attrs if (prev_attrs is not None and r.random() < 0.2) else rand_attrs(r, i, 0.7)
+        prev_attrs = attrs_text
         s = r.randrange(1, npos + 1)
         e = min(npos, s + int(r.expovariate(0.7)))
         if none_coords and r.random() < 0.08:
@@ -149,7 +156,7 @@ def rand_items(r, n, npos=12, none_coords=False):
             e = None
         line = FL.gff_line(seqid, s, e, r.choice("+++-."), r.choice(["exon", "exon", "CDS", "gene"]),
                            r.choice(["s", "t"]), r.choice([".", "0.5"]), r.choice([".", "0", "1"]),
-                           rand_attrs(r, i, 0.7), r.choice([(), (), ("x",)]))
+                           attrs_text, r.choice([(), (), ("x",)]))
         items.append(FL.Item(line, r.choice([None, None, "id%d" % i]), r.choice([None, i])))
     return items
 
@@ -199,6 +206,14 @@ def gene_models(r2, gtf, deep=False):
             exons = chain(tid, tid, r2.randrange(0 if nparts else 1, 6))
             parts = [{"id": "%sp%d" % (tid, q), "exons": chain("%sp%d" % (tid, q), "%sp%d" % (tid, q), r2.randrange(1, 5))}
                      for q in range(nparts)]
+            # GFF3 only, now and then: exon lines that do not carry their transcript's strand ('.' on all of them, or
+            # single exons on '.' / the other strand - as in trans-spliced models); the gap is stranded like its two
+            # neighbours ('.' if they differ), the site label follows the TRANSCRIPT's strand
+            if not gtf and not deep and r2.random() < 0.25:
+                mode = r2.choice(["all_dot", "some_dot", "some_opposite"])
+                for x in exons:
+                    if mode == "all_dot" or r2.random() < 0.4:
+                        x["strand"] = "." if mode != "some_opposite" else ("-" if strand == "+" else "+")
             tx.append({"tid": tid, "exons": exons, "parts": parts})
         models.append({"gid": gid, "seqid": seqid, "strand": strand, "tx": tx})
         allx = [x for t in tx for x in t["exons"] + [y for q in t["parts"] for y in q["exons"]]]
@@ -219,7 +234,7 @@ def gene_models(r2, gtf, deep=False):
             r2.shuffle(block)
             for ft, x in block:
                 mk = gen_db.gtf_line if gtf else gen_db.gff_line
-                lines.append(mk(seqid, ft, x["start"], x["end"], strand, list(x["attrs"].items())))
+                lines.append(mk(seqid, ft, x["start"], x["end"], x.get("strand", strand), list(x["attrs"].items())))
     return lines, models
 
 
@@ -235,8 +250,9 @@ def expected_introns(models, merge_attributes):
                     attrs = oracle_union(p["attrs"], n["attrs"], False) if merge_attributes else {}
                     if len(attrs.get("ID", [])) > 1:
                         attrs["ID"] = ["-".join(attrs["ID"])]
-                    out.append({"seqid": m["seqid"], "start": p["end"] + 1, "end": n["start"] - 1, "strand": m["strand"],
-                                "attributes": attrs})
+                    ps, ns = p.get("strand", m["strand"]), n.get("strand", m["strand"])
+                    out.append({"seqid": m["seqid"], "start": p["end"] + 1, "end": n["start"] - 1,
+                                "strand": ps if ps == ns else ".", "tstrand": m["strand"], "attributes": attrs})
     return out
 
 
@@ -301,10 +317,10 @@ def judge_gene_models(ctx, res, case):
         for side in ("left", "right"):
             for w in want:
                 if side == "left":
-                    ft = {"+": "five_prime_cis_splice_site", "-": "three_prime_cis_splice_site"}.get(w["strand"], "splice_site")
+                    ft = {"+": "five_prime_cis_splice_site", "-": "three_prime_cis_splice_site"}.get(w["tstrand"], "splice_site")
                     a, b = w["start"], w["start"] + 1
                 else:
-                    ft = {"+": "three_prime_cis_splice_site", "-": "five_prime_cis_splice_site"}.get(w["strand"], "splice_site")
+                    ft = {"+": "three_prime_cis_splice_site", "-": "five_prime_cis_splice_site"}.get(w["tstrand"], "splice_site")
                     a, b = w["end"] - 1, w["end"]
                 attrs = {k: list(v) for k, v in w["attributes"].items()}
                 if "ID" in attrs:
